@@ -26,6 +26,7 @@
 (*         kNoPad(24, no '=') kOnePad(24, one '=') kLong(28)               *)
 (*         kHigh (24 characters, one with the high bit set)  kMidPad (24   *)
 (*         characters ending in ==, with a further = in the middle)        *)
+(*         kPadChar (22 digits, then = and a digit)                        *)
 (*  modes  c0 c2 c4 (valid, incl. both ends of the range)  c5 c100 c256    *)
 (*         c260 cNeg (-1)  cabc cEmpty (not numbers)   h0 h1 h2  h3 h256   *)
 (*         hNeg   cHuge hHuge (a number that does not fit an int)          *)
@@ -40,7 +41,7 @@ ModeTok == {"e", "d", "v", "V", "h", "le", "ld", "lv", "en", "dn", "vn", "leAbbr
 ModeOf(t) == CASE t \in {"e", "le", "en", "leAbbr"} -> "e" [] t \in {"d", "ld", "dn"} -> "d" [] t \in {"v", "lv", "vn"} -> "v"
                [] t = "V" -> "V" [] t = "h" -> "h"
 Tokens == ModeTok \cup {"n", "iF", "iE", "iMissing", "iLong", "iLen122", "iLen123", "iProc", "iNoArg", "iBadC", "iBadH", "iTam", "iEmpty", "oO", "oBad", "kK", "kW", "kShort", "kBadChar",
-                        "kNoPad", "kOnePad", "kLong", "kHigh", "kMidPad", "kEmpty", "c0", "c2", "c4", "c5", "c100", "c256", "c260", "cNeg", "cHuge", "cabc", "cEmpty",
+                        "kNoPad", "kOnePad", "kLong", "kHigh", "kMidPad", "kPadChar", "kEmpty", "c0", "c2", "c4", "c5", "c100", "c256", "c260", "cNeg", "cHuge", "cabc", "cEmpty",
                         "h0", "h1", "h2", "h3", "h256", "hNeg", "hHuge", "iEmptyArg", "oEmptyArg", "oFull", "kAbbr", "cAbbr", "cWrapNeg", "c2p32p1", "c2p64p1", "x", "stray"}
 S0 == [mode |-> "u", ct |-> FALSE, ht |-> FALSE, in |-> "none", out |-> "none", key |-> "none", quiet |-> FALSE, err |-> FALSE, may |-> FALSE]
 
@@ -56,7 +57,7 @@ Step(s, t) ==
   ELSE IF t = "iLen122" THEN [s EXCEPT !.in = "F"]                      \* the longest path whose default output name fits
   ELSE IF t = "iProc" THEN [s EXCEPT !.in = "R"]
   ELSE IF t \in {"iBadC", "iBadH", "iTam", "iEmpty"} THEN [s EXCEPT !.in = "X"]
-  ELSE IF t \in {"iMissing", "iNoArg", "iEmptyArg", "oBad", "oEmptyArg", "kShort", "kBadChar", "kNoPad", "kOnePad", "kLong", "kHigh", "kMidPad", "kEmpty",
+  ELSE IF t \in {"iMissing", "iNoArg", "iEmptyArg", "oBad", "oEmptyArg", "kShort", "kBadChar", "kNoPad", "kOnePad", "kLong", "kHigh", "kMidPad", "kPadChar", "kEmpty",
                   "c5", "c100", "c256", "c260", "cNeg", "cHuge", "cWrapNeg", "c2p32p1", "c2p64p1", "h3", "h256", "hNeg", "hHuge", "x"}
        THEN [s EXCEPT !.err = TRUE]
   ELSE IF t = "oO" THEN [s EXCEPT !.out = "O"]
